@@ -22,13 +22,21 @@ PROP = dict(
         "Root() and Prove() are documented as pure observations: they are read after every single Push / PushSubTree / ReadAll "
         "(and after refused PushSubTree calls) in the PushSubTree sweeps and in the rapid decomposition machine, each compared with "
         "the reference root/proof of the leaves so far",
+        "refused calls are part of the histories: SetIndex on a non-empty tree (documented error), refused PushSubTree calls, Prove() on a "
+        "tree without SetIndex (documented usage panic); after any of them the tree must behave exactly as if the call had not been made "
+        "(Root, Prove incl. the usage panic, index, later pushes)",
+        "leaves / proof elements that the hash refuses (MiMC and the Poseidon2 Merkle-Damgard hasher over bn254: non-canonical blocks, for MiMC "
+        "also lengths that are no multiple of the block): panic and error are accepted (fail closed), only normal returns are asserted — no "
+        "common root for two different sequences, no acceptance of a refused element that differs from the committed one",
         "slices are handed over as windows of larger populated caller buffers (leaves to Push, sums to PushSubTree, root and proof "
         "sets to VerifyProof, leaf hashes to vortex.BuildMerkleTree, proofs to MerkleProof.Verify): results must not depend on, and "
         "calls must not write to, what lies outside the window",
     ],
     # cross-cutting classes that must be populated in every run (generator health)
     mandatory_all=["observe_mid:after_push", "observe_mid:after_pushsubtree", "observe_mid:after_readall",
-                   "observe_mid:after_refused_pushsubtree", "input:slice_with_dirty_spare_capacity"],
+                   "observe_mid:after_refused_pushsubtree", "input:slice_with_dirty_spare_capacity",
+                   "refused_call_then_continue:SetIndex", "refused_call_then_continue:PushSubTree",
+                   "refused_call_then_continue:Prove", "inadmissible_leaf:mimc", "inadmissible_leaf:poseidon2"],
     jobs=[
         dict(name="acc_sha256", pkg="c16", run="^TestC16_Accumulator$", rapid=False, shards=["sha256"], seeds=(2, 8),
              timeout=(900, 3600)),
@@ -42,6 +50,7 @@ PROP = dict(
              timeout=(900, 5400)),
         dict(name="vortex", pkg="c16", run="^TestC16_Vortex$", rapid=False, seeds=(4, 8), timeout=(900, 3600)),
         dict(name="decompose", pkg="c16", run="^TestC16_Decompose$", shards=["sha256", "mimc"], checks=(6000, 80000)),
+        dict(name="inadmissible", pkg="c16", run="^TestC16_InadmissibleLeaves$", rapid=False),
         dict(name="regress", pkg="c16", run="^TestC16_Regress", rapid=False),
     ],
 )
